@@ -4111,6 +4111,9 @@ def apply_delta(
     if not isinstance(delta, bytes):
         delta = b"".join(delta)
     out = []
+    # Bytes produced so far; copy ops may never take this past the declared
+    # size, however often a (cheap) copy op is repeated.
+    out_length = 0
     index = 0
     delta_length = len(delta)
 
@@ -4169,14 +4172,16 @@ def apply_delta(
             if (
                 cp_off + cp_size < cp_size
                 or cp_off + cp_size > src_size
-                or cp_size > dest_size
+                or cp_size > dest_size - out_length
             ):
                 break
             out.append(src_buf[cp_off : cp_off + cp_size])
+            out_length += cp_size
         elif cmd != 0:
             if index + cmd > delta_length:
                 raise ApplyDeltaError("delta truncated in insert op")
             out.append(delta[index : index + cmd])
+            out_length += cmd
             index += cmd
         else:
             raise ApplyDeltaError("Invalid opcode 0")
